@@ -4,7 +4,10 @@ import BfeVerif.C30.Model
   C30 driver.
   op     = `A=<allowed>;<op>;<op>…`   with  `f:<name hex>:<value hex>:<0|1>` | `m:<v>` | `l:<v>` | `e`
   result = one record per `e`, joined by `;`:
-           `B<block hex>|F<name:value:s,…>|E<err>|T<n>,<size>,<max>,<hash>/<n>,<size>,<max>,<hash>`  (encoder/decoder table)
+           `B<block hex>|F<name:value:s,…>|E<err>|T<n>,<size>,<max>,<hash>/<n>,<size>,<max>,<hash>|W<k>|X<Y|N-…>`
+           (T = encoder/decoder table; W = Write calls the encoder made for the block; X = a second decoder fed the same
+           blocks one octet per Write agrees in error, fields and table, and every Write returned len(p).  The harness
+           overwrites each buffer after the Write that consumed it and renders all fields after the last block.)
 -/
 namespace BfeVerif.C30
 open BfeVerif.Proto
@@ -38,9 +41,45 @@ def tabHash (t : DynTab) : Nat :=
 def renderTab (t : DynTab) : String :=
   s!"{t.ents.length},{t.size},{t.maxSize},{tabHash t}"
 
-def renderObs (o : BlockObs) : String :=
+def renderObs (o : BlockObs) (writes : Nat) : String :=
   "B" ++ hexN o.bytes ++ "|F" ++ renderFields o.fields ++ "|E" ++ renderErr o.err o.truncated ++
-    "|T" ++ renderTab o.enc ++ "/" ++ renderTab o.dec
+    "|T" ++ renderTab o.enc ++ "/" ++ renderTab o.dec ++ "|W" ++ toString writes ++ "|XY"
+
+/-- kinds of the representations of a block, scanned without tables: true = dynamic table size update -/
+def scanKinds : Nat → List Nat → List Bool
+  | 0, _ => []
+  | f + 1, buf =>
+    match buf with
+    | [] => []
+    | b :: _ =>
+      if b ≥ 128 then
+        match readVarInt 7 buf with
+        | .ok (_, rest) => false :: scanKinds f rest
+        | .error _ => []
+      else if 32 ≤ b ∧ b < 64 then
+        match readVarInt 5 buf with
+        | .ok (_, rest) => true :: scanKinds f rest
+        | .error _ => []
+      else
+        match readVarInt (if b ≥ 64 then 6 else 4) buf with
+        | .error _ => []
+        | .ok (idx, rest) =>
+          let skip := fun (p : List Nat) =>
+            match p with
+            | [] => none
+            | _ :: _ => match readVarInt 7 p with
+              | .ok (n, r) => if r.length < n then none else some (r.drop n)
+              | .error _ => none
+          match (if idx = 0 then skip rest else some rest) with
+          | none => []
+          | some r1 => match skip r1 with
+            | none => []
+            | some r2 => false :: scanKinds f r2
+
+/-- RFC 7541 §4.2 on the encoder's output: no size update after a field representation -/
+def updatesFirst (bytes : List Nat) : Bool :=
+  let ks := scanKinds (bytes.length + 1) bytes
+  !((ks.dropWhile id).any id)
 
 def parseOp (s : String) : Option Op :=
   match s.splitOn ":" with
@@ -66,12 +105,13 @@ def parseHist (op : String) : Option (Nat × List Op) :=
     | _ => none
   | [] => none
 
-/-- the field lists the property expects the decoder to emit, per block -/
-def expectedBlocks : List Op → List HF → Bool → List (List HF × Bool)
-  | [], _, _ => []
-  | .field f :: r, cur, _ => expectedBlocks r (cur ++ [f]) true
-  | .endBlock :: r, cur, sync => (cur, sync) :: expectedBlocks r [] sync
-  | _ :: r, cur, _ => expectedBlocks r cur false
+/-- the field lists the property expects the decoder to emit, per block: the fields, "no size op since the last field" (tables must be equal), and "a size op came after
+    the block's first field" (then a size update in the middle of the block is the caller's doing) -/
+def expectedBlocks : List Op → List HF → Bool → Bool → List (List HF × Bool × Bool)
+  | [], _, _, _ => []
+  | .field f :: r, cur, _, mid => expectedBlocks r (cur ++ [f]) true mid
+  | .endBlock :: r, cur, sync, mid => (cur, sync, mid) :: expectedBlocks r [] sync false
+  | _ :: r, cur, _, mid => expectedBlocks r cur false (mid || !cur.isEmpty)
 
 def parseTab (s : String) : Option (Nat × Nat × Nat × Nat) :=
   match (s.splitOn ",").map String.toNat? with
@@ -79,10 +119,14 @@ def parseTab (s : String) : Option (Nat × Nat × Nat × Nat) :=
   | _ => none
 
 /-- spec oracle for one block record of the implementation -/
-def judgeBlock (allowed : Nat) (expected : List HF) (sync : Bool) (rec : String) : Option String :=
+def judgeBlock (allowed : Nat) (expected : List HF) (sync mid : Bool) (rec : String) : Option String :=
   match rec.splitOn "|" with
-  | [_, f, e, t] =>
+  | [b, f, e, t, w, x] =>
     if e != "Enone" then some "decode-error"
+    else if w != "W" ++ toString expected.length then some "write-calls"
+    else if x != "XY" then some ("bytewise-" ++ (x.drop 3).toString)
+    else if !mid ∧ !(match unhexN (b.drop 1).toString with | some bs => updatesFirst bs | none => false) then
+      some "size-update-not-first"
     else if f != "F" ++ renderFields expected then some "fields-differ"
     else
       match (t.drop 1).toString.splitOn "/" with
@@ -97,9 +141,9 @@ def judgeBlock (allowed : Nat) (expected : List HF) (sync : Bool) (rec : String)
       | _ => some "bad-record"
   | _ => some "bad-record"
 
-def judge (allowed : Nat) : List (List HF × Bool) → List String → Option String
+def judge (allowed : Nat) : List (List HF × Bool × Bool) → List String → Option String
   | [], [] => none
-  | e :: es, r :: rs => match judgeBlock allowed e.1 e.2 r with | some c => some c | none => judge allowed es rs
+  | e :: es, r :: rs => match judgeBlock allowed e.1 e.2.1 e.2.2 r with | some c => some c | none => judge allowed es rs
   | _, _ => some "block-count"
 
 def run (op impl : String) : Ans :=
@@ -107,9 +151,9 @@ def run (op impl : String) : Ans :=
   | none => { model := "bad-op", verdict := "skip" }
   | some (allowed, ops) =>
     let h := runHist T allowed ops
-    let m := ";".intercalate (h.obs.map renderObs)
+    let exp := expectedBlocks ops [] true false
+    let m := ";".intercalate ((h.obs.zip exp).map fun p => renderObs p.1 p.2.1.length)
     let m := if m.isEmpty then "-" else m
-    let exp := expectedBlocks ops [] true
     let recs := if impl == "-" then [] else impl.splitOn ";"
     let verdict := match judge allowed exp recs with | none => "ok" | some c => "FAIL:" ++ c
     let nf := (ops.filter fun o => match o with | .field _ => true | _ => false).length
@@ -121,6 +165,7 @@ def run (op impl : String) : Ans :=
     let tags := (if dynref then ["dynref"] else []) ++ (if upd then ["sizeupd"] else []) ++
       (if huff then ["huff"] else []) ++ (if evict then ["nearfull"] else []) ++
       (if ops.any fun o => match o with | .field f => f.sensitive | _ => false then ["sens"] else []) ++
+      (if h.obs.length ≥ 8 then ["long"] else []) ++
       (if nf ≥ 2 ∧ (dynref ∨ upd) then ["nt"] else [])
     { model := m, verdict := verdict, tags := tags }
 
